@@ -848,6 +848,7 @@ fn replay(rf: &Value) {
     let expected = ref_run(&spec, &program);
     println!("expected:  {}", fmt_entry(&expected));
     println!("observed:  {}", fmt_observed(&got));
+    drop(scratch); // process::exit skips destructors
     match classify(&expected, &got, &spec) {
         Some(kind) => {
             println!("REPRODUCED {}", signature(&case, &kind, &program));
